@@ -21,7 +21,7 @@ func initCatchNode() {
 			}).ToSlice()
 
 			var argStackTraceVar ast.IdentifierNode
-			if !args[3].IsUndefined() {
+			if !args[3].IsUndefined() && !args[3].IsNil() {
 				argStackTraceVar = args[3].MustReference().(ast.IdentifierNode)
 			}
 
